@@ -307,6 +307,28 @@ def run_shard(spec, rec):
                                           {"function": fn, "pattern": p, "subject": s_, "query": q, "document": jsonable(doc), "expected": want, "observed": got, "source": "escape-adjacency-battery"})
         except CaseTimeout:
             rec.timeout(p)
+    # deeply nested groups: "(" * k + X + ")" * k has the language of X
+    if shard_no == 0:
+        for inner_p, lang in (("a", None), ("a|b", None), ("[ab]+", None), (".", None), ("a*", None), ("ALT", None)):
+            for k in (10, 100, 250, 340, 400, 700, 2000):
+                if inner_p == "ALT":
+                    p = "(a|" * k + "b" + ")" * k
+                    e_in = IR.parse("a|b")
+                else:
+                    p = "(" * k + inner_p + ")" * k
+                    e_in = IR.parse(inner_p)
+                for s_ in ("a", "b", "", "ab", "ba\n"):
+                    for fn, orc in (("match", IR.full), ("search", IR.search)):
+                        want = orc(e_in, s_)
+                        q, doc, got = ask(jp, rec, fn, s_, p, False, R)
+                        rec.case(("nesting", inner_p, k, s_, fn), True)
+                        rec.feat("group-nesting-battery")
+                        if got != want:
+                            wit = {"function": fn, "pattern": "%d nested groups around %r" % (k, inner_p), "subject": s_, "expected": want, "observed": got if isinstance(got, bool) else str(got)[:120]}
+                            if not isinstance(got, bool) and "RecursionError" in str(got) and k >= 200:
+                                rec.violation("regex-group-nesting-recursion", wit)
+                            else:
+                                rec.violation("%s:%s" % (fn, "false-positive" if got is True else "false-negative" if got is False else "raises"), wit)
     # patterns of doubtful validity (gray zones of RFC 9485, constructs of other dialects): the result is not decided
     # here, but neither function may raise
     for pat in G.HOSTILE_PATTERNS + ["a{2,1}", "[z-a]", "[b-a]x", "a{3,2}b", "(a{2,1})", "[^z-a]", "\\p{Cn}", "a{00}", "[a-\\d]", "x{1,0}|y"]:
